@@ -5,13 +5,15 @@ O1 == 0 + (26)
 O2 == O1 + (676)
 O3 == O2 + (NWalks)
 O4 == O3 + (NRare)
-Count == O4 + NHist
+O5 == O4 + NHist
+Count == O5 + NTwinHist
 ItemAt(g) ==
   IF g <= O1 THEN Depth1At(g - 0)
   ELSE IF g <= O2 THEN Depth2At(g - O1)
   ELSE IF g <= O3 THEN WalkAt(g - O2)
   ELSE IF g <= O4 THEN RareAt(g - O3)
-  ELSE HistAt(g - O4)
+  ELSE IF g <= O5 THEN HistAt(g - O4)
+  ELSE TwinSeedAt(g - O5)
 Histories == IF "VERIF_TIER" \in DOMAIN IOEnv /\ IOEnv.VERIF_TIER = "thorough" THEN 300 ELSE 40
 VARIABLE n
 INSTANCE GenBase
